@@ -270,6 +270,16 @@ def gen(rng, n):
         if i % 12 == 5:
             yield gen_epilogue(rng)
             continue
+        if i % 40 == 31:
+            while True:
+                c = gen_body(rng, 'body')
+                if c['expect'] == 'exact' and not c.get('pre') and c.get('rconf') != 'raw_dict':
+                    break
+            c['tmp_broken'] = True
+            if c['maxb'] is not None and c['payload_len'] > c['maxb']:
+                c['maxb'] = None                # (whether 413 or the spool attempt comes first is not the point here)
+            yield c
+            continue
         r = i % 10
         if r < 5:
             yield gen_body(rng, 'body')
@@ -325,6 +335,13 @@ def corpus():
     for via in ('iter_items', 'wsgi'):
         out.append(dict(kind='budget', parts=big_file, buf=200, via=via))
         out.append(dict(kind='budget', parts=big_file, buf=150, via=via))
+    # round 10: no usable temporary directory: a body above the threshold is never handed over in memory
+    for via in ('func', 'wsgi'):
+        for size in (8, 9, 26):
+            out.append(dict(_body(d[:size], size, 8, None, via=via), tmp_broken=True))
+        out.append(dict(_body(b'1a\r\n' + d[:26] + b'\r\n0\r\n\r\n', -1, 8, None, chunked=True, via=via, payload_len=26,
+                              layout=[[0, 4, 30]]), tmp_broken=True))
+        out.append(dict(_body(d[:26], 26, 8, 30, via=via), tmp_broken=True))
     # round 8: the stored body is used AFTER _handle returned (returned as the response, read inside a generator, read by a
     # before_request hook and again by the generator) — on both sides of max_memfile_size
     for hk in ('ret_body', 'gen', 'hook_gen'):
@@ -642,6 +659,22 @@ def run_seq(case):
 
 
 def run_impl(case):
+    if case.get('tmp_broken'):
+        # fault injection: no usable temporary directory — a body above max_memfile_size cannot be spooled
+        import tempfile
+        saved = tempfile.tempdir
+        tempfile.tempdir = '/nonexistent-verif-tmp'
+        try:
+            try:
+                return run_impl_inner(case)
+            except OSError:
+                return dict(status='os_error')
+        finally:
+            tempfile.tempdir = saved
+    return run_impl_inner(case)
+
+
+def run_impl_inner(case):
     from ombott.request_pkg.errors import BodySizeError, BodyParsingError
     if case['kind'] == 'seq':
         return run_seq(case)
@@ -731,6 +764,8 @@ def decode(out, case):
             obs.append(decode(sub, it))
         return dict(kind='seq', items=obs)
     tag = r.int()
+    if no_spool(case):
+        return dict(status='no_spool')          # the model has no file system: the body would have been spooled
     escaped = 'bare_error' if raw_config(case) else 'http_500'
     if case['kind'] == 'budget':
         if tag == 0:
@@ -770,7 +805,14 @@ def decode(out, case):
     return dict(status=escaped, pos=r.int())
 
 
+def no_spool(case):
+    return bool(case.get('tmp_broken')) and case['kind'] == 'body' and case['payload_len'] > case['buf'] and (
+        case['maxb'] is None or case['payload_len'] <= case['maxb'])
+
+
 def project(obs, case):
+    if no_spool(case) and obs.get('status') != 'ok':
+        return dict(status='no_spool')          # any failure will do; what must not happen is an in-memory body
     if case['kind'] == 'seq':
         return dict(kind='seq', items=[project(o, it) for o, it in zip(obs.get('items', []), case['items'])]) \
             if 'items' in obs else obs
@@ -807,6 +849,11 @@ def oracle(case, obs):
             return 'sequence not completed: %s' % (obs,)
         return None
     st = obs.get('status')
+    if no_spool(case):
+        if st == 'ok':
+            return 'body of %d bytes above max_memfile_size=%d handed over %s although no temporary file could be created' % (
+                case['payload_len'], case['buf'], 'on disk' if obs.get('spilled') else 'IN MEMORY')
+        return None
     if raw_config(case) and st == 'bare_error':
         st = 'too_large' if case.get('expect') != 'any' else 'parse_error'   # no errors_map: the bare exception
     if case['kind'] == 'budget':
@@ -994,7 +1041,8 @@ API_SURFACE = [
     ('application and Request objects reused, shared HTTPError instances, two applications', 'covered by kind=seq '
                                                                                              '(C13_response_function_of_request)'),
     ('wsgi.input short reads / early EOF', 'covered by every body/text case and fragmented multipart bodies'),
-    ('temporary file on disk', 'excluded: OS (content checked by the correspondence only)'),
+    ('temporary file on disk', 'content checked by the correspondence only; failure to create it: covered by tmp_broken '
+                               '(tempfile.tempdir -> nonexistent): never an in-memory body above the threshold'),
 ]
 
 # --------------------------------------------------------------------------
